@@ -343,9 +343,9 @@ class Gen:
         if self.maybe(0.15):
             gens.append("'a")
         if self.maybe(0.25):
-            gens.append(self.pick(["T", "T: Clone", "T = u8", "const N: usize"]))
+            gens.append(self.pick(["T", "T: Clone", "T = u8", "const N: usize", "const N: usize = 4", "T: Clone = u8"]))
         if self.maybe(0.08):
-            gens.append("U: ?Sized")
+            gens.append(self.pick(["U: ?Sized", "const M: usize = 2", "U = ()"]))
         g = "<" + ", ".join(gens) + self.pick(["", "", ","]) + ">" if gens else ""
         sup = ""
         if self.maybe(0.25):
